@@ -1,6 +1,174 @@
-/-! Driver mode `codec` (stub, filled in by its check). -/
-namespace Drv
-def runCodec (_args : List String) : IO UInt32 := do
-  IO.eprintln "mode not implemented"
-  return 2
-end Drv
+import Sessions.Model.Codec
+/-!
+Driver mode `codec`: `driver codec <case file>` reads the `rt <gob|json> us=… cr=… la=… ip=… ua=… rf=… da=…` lines the
+codec checks feed to the real package, builds the model session (`Sx.Sess`), applies the MODEL's `Sx.enc` and `Sx.dec`
+(the functions the coherence and crash theorems are about) and prints what comes back in the harness's notation, instants
+without zone. Cases with nested data values, integers beyond 2^53 or non-integral floats are outside the model's value
+type and print `skip`.
+-/
+namespace Drv.Cdc
+open Sx
+
+def hexNib (n : Nat) : Char := if n < 10 then Char.ofNat (48 + n) else Char.ofNat (87 + n)
+
+def hexOf (bs : List UInt8) : String :=
+  String.ofList (bs.foldr (fun b acc => hexNib (b.toNat / 16) :: hexNib (b.toNat % 16) :: acc) [])
+
+def hexV (c : Char) : Nat :=
+  if '0' ≤ c && c ≤ '9' then c.toNat - 48 else if 'a' ≤ c && c ≤ 'f' then c.toNat - 87 else if 'A' ≤ c && c ≤ 'F' then c.toNat - 55 else 0
+
+def unhexBytes : List Char → List UInt8
+  | a :: b :: r => UInt8.ofNat (hexV a * 16 + hexV b) :: unhexBytes r
+  | _ => []
+
+def strOfHex (s : String) : Option String := String.fromUTF8? (ByteArray.mk (unhexBytes s.toList).toArray)
+
+def safeCh (c : Char) : Bool :=
+  c.isAlphanum || c == '+' || c == '/' || c == '=' || c == '.' || c == '_' || c == '-' || c == ':'
+
+def qq (s : String) : String :=
+  if s.isEmpty then "~" else if s.toList.all safeCh then s else "~" ++ hexOf s.toUTF8.toList
+
+def unqq (s : String) : Option String :=
+  match s.toList with
+  | '~' :: r => strOfHex (String.ofList r)
+  | _ => some s
+
+/-- IEEE-754 bits of the float64 holding the integer `n`, for |n| ≤ 2^53 -/
+def log2 (n : Nat) : Nat := if n ≤ 1 then 0 else 1 + log2 (n / 2)
+
+def floatBitsOfInt (n : Int) : Option Nat :=
+  let a := n.natAbs
+  if a == 0 then some 0
+  else if a > 2 ^ 53 then none
+  else
+    let e := log2 a
+    let mant := (a - 2 ^ e) * 2 ^ (52 - e)
+    some ((if n < 0 then 2 ^ 63 else 0) + (e + 1023) * 2 ^ 52 + mant)
+
+def hexNat (n : Nat) : String :=
+  if n < 16 then String.singleton (hexNib n) else hexNat (n / 16) ++ String.singleton (hexNib (n % 16))
+
+/-- an integral float64 given by its bits: the integer it holds, if it is one with |n| ≤ 2^53 -/
+def intOfFloatBits (b : Nat) : Option Int :=
+  if b == 2 ^ 63 then none          -- -0.0 is not an integer value of the model
+  else if b == 0 then some 0
+  else
+    let sign := b / 2 ^ 63
+    let ex := (b / 2 ^ 52) % 2048
+    let mant := b % 2 ^ 52
+    if ex < 1023 || ex > 1023 + 53 then none
+    else
+      let e := ex - 1023
+      let full := 2 ^ 52 + mant
+      if e ≤ 52 then
+        if full % 2 ^ (52 - e) != 0 then none
+        else
+          let v : Int := (full / 2 ^ (52 - e) : Nat)
+          some (if sign == 1 then -v else v)
+      else
+        let v : Int := (full * 2 ^ (e - 52) : Nat)
+        some (if sign == 1 then -v else v)
+
+def parseValue (s : String) : Option Val :=
+  match s.toList with
+  | 's' :: r => (strOfHex (String.ofList r)).map Val.str
+  | 'i' :: r => (String.ofList r).toInt?.map Val.int
+  | 'I' :: _ => none            -- int64 is a distinct Go type; the model has one integer type
+  | 'F' :: r => (intOfFloatBits ((String.ofList r).toList.foldl (fun acc c => acc * 16 + hexV c) 0)).map Val.flt
+  | ['b', '0'] => some (.bool false)
+  | ['b', '1'] => some (.bool true)
+  | ['n'] => some .null
+  | _ => none
+
+def renderValue : Val → Option String
+  | .str s => some ("s" ++ hexOf s.toUTF8.toList)
+  | .int n => some ("i" ++ toString n)
+  | .flt n => (floatBitsOfInt n).map (fun b => "F" ++ hexNat b)
+  | .bool b => some (if b then "b1" else "b0")
+  | .null => some "n"
+
+/-- `M(~hexkey=value;…)` with flat values only -/
+def parseData (s : String) : Option (Option Data) :=
+  if s == "nil" then some none
+  else if s.startsWith "M(" && s.endsWith ")" then
+    let inner := ((s.drop 2).toString.dropEnd 1).toString
+    if inner.isEmpty then some (some [])
+    else if inner.contains '(' then none
+    else
+      (inner.splitOn ";").foldr (fun kv acc =>
+        match acc, kv.splitOn "=" with
+        | some (some d), [k, v] =>
+          match unqq k, parseValue v with
+          | some k', some v' => some (some ((k', v') :: d))
+          | _, _ => none
+        | _, _ => none) (some (some []))
+  else none
+
+def keyLe (a b : String) : Bool := !(b.toUTF8.toList.map (·.toNat) < a.toUTF8.toList.map (·.toNat))
+
+def renderDataM : Option Data → Option String
+  | none => some "nil"
+  | some d =>
+    let sorted := d.mergeSort (fun a b => keyLe a.1 b.1)
+    (sorted.mapM (fun kv => (renderValue kv.2).map (fun v => "~" ++ hexOf kv.1.toUTF8.toList ++ "=" ++ v))).map
+      (fun parts => "M(" ++ ";".intercalate parts ++ ")")
+
+/-- `<sec>.<nanos>@<offset>` or `zero` → ns since the Unix epoch -/
+def parseInstant (s : String) : Option Int :=
+  if s == "zero" then some (-62135596800 * 1000000000)
+  else
+    match (s.splitOn "@") with
+    | [a, _] =>
+      match a.splitOn "." with
+      | [sec, ns] =>
+        match sec.toInt?, ns.toNat? with
+        | some x, some y => some (x * 1000000000 + y)
+        | _, _ => none
+      | _ => none
+    | _ => none
+
+def renderInstant (t : Int) : String :=
+  let sec := t / 1000000000
+  let ns := t % 1000000000
+  toString sec ++ "." ++ toString ns
+
+def field (toks : List String) (k : String) : Option String :=
+  (toks.find? (fun t => t.startsWith (k ++ "="))).map (fun t => (t.drop (k.length + 1)).toString)
+
+def runCodec (args : List String) : IO UInt32 := do
+  match args with
+  | [path] =>
+    let out ← IO.getStdout
+    let ls ← IO.FS.lines path
+    for l in ls do
+      let toks := (l.splitOn " ").filter (· ≠ "")
+      match toks with
+      | "rt" :: codec :: rest =>
+        let c : Codec := if codec == "json" then .json else .gob
+        let r : Option String := do
+          let us ← field rest "us"
+          let user : Option (String × Nat) ← (if us == "-" then some none else
+            match us.toList with
+            | 's' :: h => (strOfHex (String.ofList h)).map (fun u => some (u, 0))
+            | _ => none)
+          let cr ← (field rest "cr").bind parseInstant
+          let la ← (field rest "la").bind parseInstant
+          let ip ← (field rest "ip").bind unqq
+          let ua ← (field rest "ua").bind String.toNat?
+          let rf ← field rest "rf"
+          let ref : Option ID ← (if rf == "-" then some none else (unqq rf).map (fun s => some (ID.lit s)))
+          let da ← (field rest "da").bind parseData
+          let o : Sess := { id := .lit "x", user := user, created := cr, lastAccess := la, ip := ip, ua := ua, ref := ref, data := da }
+          let back := dec (fun _ => 0) (.lit "x") (enc c o)
+          let daS ← renderDataM back.data
+          some ("us=" ++ (match back.user with | none => "-" | some (u, _) => "s" ++ hexOf u.toUTF8.toList)
+            ++ " cr=" ++ renderInstant back.created ++ " la=" ++ renderInstant back.lastAccess ++ " ip=" ++ qq back.ip
+            ++ " ua=" ++ toString back.ua
+            ++ " rf=" ++ (match back.ref with | none => "-" | some (.lit s) => qq s | some (.gen _) => "?")
+            ++ " da=" ++ daS)
+        out.putStrLn (match r with | some s => "rt " ++ codec ++ " " ++ s | none => "skip")
+      | _ => pure ()
+    return 0
+  | _ => IO.eprintln "usage: driver codec <cases>"; return 2
+end Drv.Cdc
